@@ -6,7 +6,7 @@
  */
 #include "common.h"
 
-#define CAP (1u << 20)
+#define CAP (2u << 20)
 static u8 *g_src, *g_dst, *g_out, *g_scratch;
 static const char* g_mode; static const char* g_set; static int g_big, g_conf, g_K;
 
@@ -51,6 +51,25 @@ static void body(void) {
         size_t warm = g_conf ? W * 3 + 17 : W + 64;
         n = shape_render(segs, g_K, W, B, warm, g_src, CAP, g_big);
         shape_describe(segs, g_K, sdesc, sizeof sdesc);
+    } else if (!strcmp(g_set, "longlen")) {
+        if (p.strategy == 0 && !(p.level == 1 || p.level == 3 || p.level == 5 || p.level == 9 || p.level == 16 || p.level == 19)) { vx_obs_u64(51); return; }     /* 600 KB at every level would only cost time */
+        if (entry >= 3 && p.level != 3 && p.level != 16) { vx_obs_u64(52); return; }
+        /* lengths at and above the 64 KiB long-length escape, placed against block edges, in blocks with few or many other
+         * sequences (the block splitter only acts on blocks with many), literal or match */
+        static const size_t LENS[] = {65535, 65536, 65537, 65538, 65539, 65540, 70001, 131071, 131075};
+        int li = vx_choose(9), edge = vx_choose(4), many = vx_choose(2), isLit = vx_choose(2), twice = vx_choose(2);
+        size_t len = LENS[li], pos = 0, blk = 128 * 1024;
+        fill_noise(g_src, 140000, 7); pos = 140000;                               /* material to copy from */
+        if (many) { for (int k = 0; k < 400; k++) { memcpy(g_src + pos, g_src + 1000 + (size_t)k * 37, 9); pos += 9; g_src[pos++] = (u8)k; } }
+        /* start of the long run relative to a block edge */
+        { size_t target = ((pos / blk) + 1) * blk + (edge == 0 ? 0 : edge == 1 ? (size_t)-1 : edge == 2 ? 1 : 4097); while (pos < target) { g_src[pos] = (u8)(pos * 2654435761u >> 11); pos++; } }
+        for (int rep = 0; rep <= twice; rep++) {
+            if (isLit) { fill_noise(g_src + pos, len, 11 + (uint32_t)rep); pos += len; } else { memcpy(g_src + pos, g_src + 17 + rep, len); pos += len; }
+            if (many) for (int k = 0; k < 350; k++) { memcpy(g_src + pos, g_src + 2000 + (size_t)k * 41, 8 + k % 5); pos += 8 + (size_t)(k % 5); g_src[pos++] = (u8)(k * 3); }
+            else { memcpy(g_src + pos, g_src + 500, 40); pos += 40; }
+        }
+        n = pos; snprintf(sdesc, sizeof sdesc, "longlen %s=%zu edge%d many%d twice%d", isLit ? "lit" : "match", len, edge, many, twice);
+        if (entry == 0) { p.splitter = 1 + vx_choose(2); if (p.windowLog && p.windowLog < 19) p.windowLog = 19; }
     } else if (!strcmp(g_set, "ab")) {
         /* every string over {a,b} of length <= L */
         int L = (int)vx_opt_int("--L", 12); int len = vx_choose(L + 1);
